@@ -59,11 +59,11 @@ func def(id string, d *propertyDef) {
 
 func init() {
 	def("C01", &propertyDef{
-		Decides:    "in code reachable from the load entry points: (1) every unchecked type assertion, index and slice expression is proved safe, justified, or a listed finding (PANIC-TA, PANIC-IDX, PANIC-EXPL, lemma TAB-L1), no `==` / slices.Contains / map key on two interface values that can both hold a list or a mapping (PANIC-CMP), every kind-restricted reflect.Value method is applied under a test of the receiver's kind (PANIC-REFL), the result of a function that can return (nil, nil) is dereferenced only under a nil test (NILRET), and no function that assigns into a map parameter is handed a map that can be nil (NILMAP); (2) every recursive call cycle is a structural descent on a YAML tree or has a checked guard, every condition-less loop is inventoried (TERM, CYC); (3) the cycle guards for extends, include, aliases and depends_on are present, dominate the recursion they protect and return errors (CYC); (4) errors from reading referenced files are propagated (ERR), every entry of a list of file references (env_file, label_file, configuration files, env files given to dotenv) reaches its reader on every iteration of the loop over the list, with no skipping path (REFS), and, path-sensitively, no error produced by any call in the load scope reaches a return untested (ERRDROP); (5) every return of the load chain is project-xor-error (XOR); (6) each pipeline stage propagates its error and schema validation is wired after every merged document unless SkipValidation (PIPE). A pointer loaded from a struct field (the optional parts of the model and of the options: deploy, resources.limits, Options.Interpolate, ...) is dereferenced only under a dominating non-nil test of the same field path, or after a fresh value was stored there (PANIC-NIL).",
+		Decides:    "in code reachable from the load entry points: (1) every unchecked type assertion, index and slice expression is proved safe, justified, or a listed finding (PANIC-TA, PANIC-IDX, PANIC-EXPL, lemma TAB-L1), no `==` / slices.Contains / map key on two interface values that can both hold a list or a mapping (PANIC-CMP), every kind-restricted reflect.Value method is applied under a test of the receiver's kind (PANIC-REFL), the result of a function that can return (nil, nil) is dereferenced only under a nil test (NILRET), and no function that assigns into a map parameter is handed a map that can be nil (NILMAP); (2) every recursive call cycle is a structural descent on a YAML tree or has a checked guard, every condition-less loop is inventoried (TERM, CYC); (3) the cycle guards for extends, include, aliases and depends_on are present, dominate the recursion they protect and return errors (CYC); (4) errors from reading referenced files are propagated (ERR), every entry of a list of file references (env_file, label_file, configuration files, env files given to dotenv) reaches its reader on every iteration of the loop over the list, with no skipping path (REFS), and, path-sensitively, no error produced by any call in the load scope reaches a return untested (ERRDROP); (5) every return of the load chain is project-xor-error (XOR); (6) each pipeline stage propagates its error and schema validation is wired after every merged document unless SkipValidation (PIPE). A pointer loaded from a struct field (the optional parts of the model and of the options: deploy, resources.limits, Options.Interpolate, ...) is dereferenced only under a dominating non-nil test of the same field path, or after a fresh value was stored there (PANIC-NIL). Entries of the caller's ConfigFiles slice are only read (INPUTS-files): nothing a load caches there can make a later load skip a file that has since gone missing.",
 		NotDecided: "termination and stack bounds themselves (TERM inventories arguments); nil dereferences and nil-map writes other than through map parameters; panics inside dependencies; that an error names the missing file; recursion through function values (template substitution) is not in the static call cycles.",
-		Rules:      []string{"PANIC-TA", "PANIC-IDX", "PANIC-EXPL", "PANIC-CMP", "PANIC-REFL", "NILRET", "NILMAP", "TAB-L1", "TERM", "CYC", "ERR", "ERRDROP", "REFS", "XOR", "PIPE", "PANIC-NIL"},
+		Rules:      []string{"PANIC-TA", "PANIC-IDX", "PANIC-EXPL", "PANIC-CMP", "PANIC-REFL", "NILRET", "NILMAP", "TAB-L1", "TERM", "CYC", "ERR", "ERRDROP", "REFS", "XOR", "PIPE", "PANIC-NIL", "INPUTS-files"},
 		Run: func(c *rules.Ctx) []report.Obligation {
-			return cat(c.PANICNIL("PANIC-NIL", "LOAD"), c.PanicTA("PANIC-TA", "LOAD"), c.PanicIDX("PANIC-IDX", "LOAD"), c.PanicExpl("PANIC-EXPL", "LOAD"), c.PanicCMP("PANIC-CMP", "LOAD"), c.PanicREFL("PANIC-REFL", "LOAD"), c.NILRET("NILRET", "LOAD"), c.NILMAP("NILMAP", "LOAD"), c.TabL1("TAB-L1"),
+			return cat(rules.OnlyRule(c.INPUTS("INPUTS"), "INPUTS-files"), c.PANICNIL("PANIC-NIL", "LOAD"), c.PanicTA("PANIC-TA", "LOAD"), c.PanicIDX("PANIC-IDX", "LOAD"), c.PanicExpl("PANIC-EXPL", "LOAD"), c.PanicCMP("PANIC-CMP", "LOAD"), c.PanicREFL("PANIC-REFL", "LOAD"), c.NILRET("NILRET", "LOAD"), c.NILMAP("NILMAP", "LOAD"), c.TabL1("TAB-L1"),
 				c.TERM("TERM", "LOAD"), c.CYC("CYC"), c.ERR("ERR", "LOAD"), c.ERRDROP("ERRDROP", "LOAD"), c.REFS("REFS"), c.XOR("XOR"), c.PIPE("PIPE", nil))
 		},
 	})
@@ -76,26 +76,26 @@ func init() {
 		},
 	})
 	def("C03", &propertyDef{
-		Decides:    "form coverage: for every attribute path of schema/compose-spec.json and every YAML kind the schema admits there, the code that consumes it has an arm for that kind: the canonical transformer registered for the path, else the custom decoder of the model type, else the plain Go kind under strict mapstructure + the repo's cast hook (A3); every schema attribute has a model field (A7); every transformer row denotes a schema path (A2); the bind-vs-volume decision of the volume short syntax is controlled by conditions computed from the source only (CLASSIFY); when several scalar spellings of one short form are accepted (a number and a string) they are all handed to the same parser of package types / format (SIBARM); command strings are split by shellwords.Parse only (SHELLSPLIT); a key is resolved from the environment only when it has no value at all (bare `KEY`, null), decided by nil / separator-absence / type tests and never by an emptiness test, so `KEY=` stays explicitly empty (INHERIT); a short list converted to its mapping form gives every name its own attribute map, never one object under several keys (TREE, packages override and transform). KEY=VALUE strings are cut at the first `=` only (KVSPLIT).",
+		Decides:    "form coverage: for every attribute path of schema/compose-spec.json and every YAML kind the schema admits there, the code that consumes it has an arm for that kind: the canonical transformer registered for the path, else the custom decoder of the model type, else the plain Go kind under strict mapstructure + the repo's cast hook (A3); every schema attribute has a model field (A7); every transformer row denotes a schema path (A2); the bind-vs-volume decision of the volume short syntax is controlled by conditions computed from the source only (CLASSIFY); when several scalar spellings of one short form are accepted (a number and a string) they are all handed to the same parser of package types / format (SIBARM); command strings are split by shellwords.Parse only (SHELLSPLIT); a key is resolved from the environment only when it has no value at all (bare `KEY`, null), decided by nil / separator-absence / type tests and never by an emptiness test, so `KEY=` stays explicitly empty (INHERIT); a short list converted to its mapping form gives every name its own attribute map, never one object under several keys (TREE, packages override and transform). KEY=VALUE strings are cut at the first `=` only (KVSPLIT). Which transformer / decoder handles a value is decided by matching its whole path, never by its last segment alone, so a resource that is named like an attribute (`dns`, `ssh`, `build`) still gets the handler of its position (PATHLAST).",
 		NotDecided: "that two spellings produce equal values: port-range pairing, what counts as a path in the bind-vs-volume classification, KEY=VALUE splitting, durations, byte sizes and shell-word splitting are value-level grammars; rejection of near-miss strings.",
-		Rules:      []string{"A3", "A7", "A2", "CLASSIFY", "SIBARM", "INHERIT", "SHELLSPLIT", "TREE", "KVSPLIT"},
+		Rules:      []string{"A3", "A7", "A2", "CLASSIFY", "SIBARM", "INHERIT", "SHELLSPLIT", "TREE", "KVSPLIT", "PATHLAST"},
 		Run: func(c *rules.Ctx) []report.Obligation {
-			return cat(c.KVSPLIT("KVSPLIT"), rules.Only(c.TREE("TREE", "LOAD"), "override.", "transform.", "inventory"), c.SHELLSPLIT("SHELLSPLIT"), c.INHERIT("INHERIT"), c.A3("A3"), c.A7("A7"), c.A2("A2", rules.TTransform), c.CLASSIFY("CLASSIFY"), c.SIBARM("SIBARM", "transform", "types"))
+			return cat(c.PATHLAST("PATHLAST"), c.KVSPLIT("KVSPLIT"), rules.Only(c.TREE("TREE", "LOAD"), "override.", "transform.", "inventory"), c.SHELLSPLIT("SHELLSPLIT"), c.INHERIT("INHERIT"), c.A3("A3"), c.A7("A7"), c.A2("A2", rules.TTransform), c.CLASSIFY("CLASSIFY"), c.SIBARM("SIBARM", "transform", "types"))
 		},
 	})
 	def("C04", &propertyDef{
-		Decides:    "merge coverage (A4): every attribute below services/networks/volumes/secrets/configs that the schema lets be spelled as list-or-mapping or string-or-list has a converting merger; every uniqueItems list is de-duplicated after the append (unicity indexer, mapping-producing or replacing merger), the de-duplication keeping, per key, the position of its first occurrence in the output list (position-map idiom, proved by PANIC-IDX over package override); command, entrypoint and healthcheck.test are bound to the replacing merger; each indexer has an arm for every item kind, and builds its key with verbs that print every admissible YAML type of a field alike (FMTVERB); mergeLogging consults the presence of `driver` on both sides before replacing instead of merging (LOGMERGE). The two tables are exclusive and have no dead rows (A1, A2). Stage order Apply(!reset) < Merge < EnforceUnicity < validate < Canonical < EnforceUnicity holds on every path and each stage's error is propagated (PIPE); every YAML document of a file runs through the pipeline (MULTIDOC).",
+		Decides:    "merge coverage (A4): every attribute below services/networks/volumes/secrets/configs that the schema lets be spelled as list-or-mapping or string-or-list has a converting merger; every uniqueItems list is de-duplicated after the append (unicity indexer, mapping-producing or replacing merger), the de-duplication keeping, per key, the position of its first occurrence in the output list (position-map idiom, proved by PANIC-IDX over package override); command, entrypoint and healthcheck.test are bound to the replacing merger; each indexer has an arm for every item kind, and builds its key with verbs that print every admissible YAML type of a field alike (FMTVERB); mergeLogging consults the presence of `driver` on both sides before replacing instead of merging (LOGMERGE). The two tables are exclusive and have no dead rows (A1, A2). Stage order Apply(!reset) < Merge < EnforceUnicity < validate < Canonical < EnforceUnicity holds on every path and each stage's error is propagated (PIPE); every YAML document of a file runs through the pipeline (MULTIDOC). A float of the document is turned into the text of a KEY=VALUE entry the way fmt does it, in the mergers as in the decoders (FMTFLOAT). A merger that walks the entries of its base list appends each of them (or what it builds from it) on every iteration: entries no override matches survive (MERGEKEEP).",
 		NotDecided: "the merged values themselves; `!reset` inside sequences; that what a later file does not mention is preserved.",
-		Rules:      []string{"A4", "PANIC-IDX", "FMTVERB", "A1", "A2", "PIPE", "MULTIDOC", "TREEPATH", "TREE", "LOGMERGE"},
+		Rules:      []string{"A4", "PANIC-IDX", "FMTVERB", "A1", "A2", "PIPE", "MULTIDOC", "TREEPATH", "TREE", "LOGMERGE", "FMTFLOAT", "MERGEKEEP"},
 		Run: func(c *rules.Ctx) []report.Obligation {
-			return cat(c.LOGMERGE("LOGMERGE"), c.A4("A4"), rules.Only(c.PanicIDX("PANIC-IDX", "LOAD"), "override."), c.FMTVERB("FMTVERB", "override"), c.TREEPATH("TREEPATH"), c.TREE("TREE", "LOAD"), c.A1("A1", rules.TMerge, rules.TUnique), c.A2("A2", rules.TMerge, rules.TUnique),
+			return cat(c.MERGEKEEP("MERGEKEEP"), c.FMTFLOAT("FMTFLOAT"), c.LOGMERGE("LOGMERGE"), c.A4("A4"), rules.Only(c.PanicIDX("PANIC-IDX", "LOAD"), "override."), c.FMTVERB("FMTVERB", "override"), c.TREEPATH("TREEPATH"), c.TREE("TREE", "LOAD"), c.A1("A1", rules.TMerge, rules.TUnique), c.A2("A2", rules.TMerge, rules.TUnique),
 				c.PIPE("PIPE", stageIn("Apply", "override.Merge", "override.EnforceUnicity", "schema.Validate", "transform.Canonical", "loader.OmitEmpty")), c.MULTIDOC("MULTIDOC"))
 		},
 	})
 	def("C05", &propertyDef{
-		Decides:    "in the function that calls override.ExtendService: the base is a fresh deep clone (ownership analysis of deepClone), every return of the merged service is dominated by delete(merged,\"extends\") and by the memoising store, missing bases have error returns, the other file is loaded with ResolvePaths=false and resolved once against loader.Dir(refPath) on every success path, ApplyExtends stores the result for every service (EXT); the recursion is guarded by a successful cycleTracker.Add (CYC); the mergers that ExtendService runs never store one map or slice under several keys, so refining one inherited entry cannot change its siblings (TREE, package override).",
+		Decides:    "in the function that calls override.ExtendService: the base is a fresh deep clone (ownership analysis of deepClone), every return of the merged service is dominated by delete(merged,\"extends\") and by the memoising store, missing bases have error returns, the other file is loaded with ResolvePaths=false and resolved once against loader.Dir(refPath) on every success path, ApplyExtends stores the result for every service (EXT); the recursion is guarded by a successful cycleTracker.Add (CYC); the mergers that ExtendService runs never store one map or slice under several keys, so refining one inherited entry cannot change its siblings (TREE, package override). Whether the file named by `extends.file` is loaded depends on presence, type, nil and error tests only (EXT-7).",
 		NotDecided: "that the result equals base-then-local by the override rules (merge values); per-attribute path anchoring.",
-		Rules:      []string{"EXT", "CYC", "TREEPATH", "TREE"},
+		Rules:      []string{"EXT", "CYC", "TREEPATH", "TREE", "EXT-7"},
 		Run: func(c *rules.Ctx) []report.Obligation {
 			return cat(rules.Only(c.TREE("TREE", "LOAD"), "override.", "loader.", "inventory"), c.EXT("EXT"), rules.Only(c.CYC("CYC"), "extends ::"), c.TREEPATH("TREEPATH"))
 		},
@@ -126,46 +126,46 @@ func init() {
 		},
 	})
 	def("C09", &propertyDef{
-		Decides:    "every model field has equal yaml and json keys (or json \"-\"); a type has both or neither of MarshalYAML/MarshalJSON; the kind a custom MarshalYAML emits is admitted by the schema where the type is used (A6); every schema attribute has a model field (A7); Project.MarshalJSON enumerates the resource kinds of the struct (A10); renderers and the parsers that read them back agree on their literal separators and host lists are sorted (CODEC); rendering leaves the project untouched: MarshalYAML / MarshalJSON and what they call write nothing reachable from the receiver, so a second rendering starts from the same project (IMM-I1); decoders of signed integer model types do not parse with an unsigned parser (NUMSIGN); no renderer chooses a spelling by the sign of an integer field (SIGNCMP); a key is resolved from the environment only when it has no value at all (bare `KEY`, null), decided by nil / separator-absence / type tests and never by an emptiness test, so `KEY=` stays explicitly empty (INHERIT), which is what keeps an explicitly empty value of a rendering from inheriting on reload. An attribute that has a documented default and takes part in the key under which a unique list is de-duplicated enters that key with the default when it is absent, so the first load and the reload (where defaults are spelled out) de-duplicate alike (KEYDFLT).",
+		Decides:    "every model field has equal yaml and json keys (or json \"-\"); a type has both or neither of MarshalYAML/MarshalJSON; the kind a custom MarshalYAML emits is admitted by the schema where the type is used (A6); every schema attribute has a model field (A7); Project.MarshalJSON enumerates the resource kinds of the struct (A10); renderers and the parsers that read them back agree on their literal separators and host lists are sorted (CODEC); rendering leaves the project untouched: MarshalYAML / MarshalJSON and what they call write nothing reachable from the receiver, so a second rendering starts from the same project (IMM-I1); decoders of signed integer model types do not parse with an unsigned parser (NUMSIGN); no renderer chooses a spelling by the sign of an integer field (SIGNCMP); a key is resolved from the environment only when it has no value at all (bare `KEY`, null), decided by nil / separator-absence / type tests and never by an emptiness test, so `KEY=` stays explicitly empty (INHERIT), which is what keeps an explicitly empty value of a rendering from inheriting on reload. An attribute that has a documented default and takes part in the key under which a unique list is de-duplicated enters that key with the default when it is absent, so the first load and the reload (where defaults are spelled out) de-duplicate alike (KEYDFLT). The renderers of package types keep no package-level state (no pooled buffer, no cache): the bytes of one rendering cannot be overwritten by the next (GLOB, package types).",
 		NotDecided: "equality of the reloaded project; byte-identity of a second rendering beyond map order and receiver immutability.",
-		Rules:      []string{"A6", "A7", "A10", "CODEC", "IMM-I1", "INHERIT", "NUMSIGN", "SIGNCMP", "KEYDFLT"},
+		Rules:      []string{"A6", "A7", "A10", "CODEC", "IMM-I1", "INHERIT", "NUMSIGN", "SIGNCMP", "KEYDFLT", "GLOB"},
 		Run: func(c *rules.Ctx) []report.Obligation {
-			return cat(c.KEYDFLT("KEYDFLT"), c.SIGNCMP("SIGNCMP"), c.NUMSIGN("NUMSIGN"), c.INHERIT("INHERIT"), c.A6("A6"), c.A7("A7"), c.A10("A10"), c.CODEC("CODEC"), c.IMMRender("IMM"))
+			return cat(rules.Only(c.GLOB("GLOB"), "types.", "inventory"), c.KEYDFLT("KEYDFLT"), c.SIGNCMP("SIGNCMP"), c.NUMSIGN("NUMSIGN"), c.INHERIT("INHERIT"), c.A6("A6"), c.A7("A7"), c.A10("A10"), c.CODEC("CODEC"), c.IMMRender("IMM"))
 		},
 	})
 	def("C10", &propertyDef{
-		Decides:    "checkConsistency has an error return that depends on the model fields of each of the 20 rules of the statement (INV) and ends in graph.CheckCycle; searchCycle is guarded by path membership and errors on a hit (CYC); checkConsistency runs unless SkipConsistencyCheck and validation.Validate unless SkipValidation, errors propagated (PIPE); the switches are the caller's: loader.Options fields are written only by option setters or on an Options value the function created / cloned, never through a *Options received from the caller (GATEW); the error for several exclusive sources of a secret / config does not depend on `driver` / `external` (SRCEXCL); every field of loader.Options is copied, from the field of the same name, by (*Options).clone, so a nested load (include, extends) runs under the switches the caller set (CLONE); validation.checks rows denote schema paths and are exclusive (A1, A2). Every attribute a validation check tests as a boolean or number has an interpolation cast row at its path, so the check sees the typed value also when it was written as a variable (CHKCAST).",
+		Decides:    "checkConsistency has an error return that depends on the model fields of each of the 20 rules of the statement (INV) and ends in graph.CheckCycle; searchCycle is guarded by path membership and errors on a hit (CYC); checkConsistency runs unless SkipConsistencyCheck and validation.Validate unless SkipValidation, errors propagated (PIPE); the switches are the caller's: loader.Options fields are written only by option setters or on an Options value the function created / cloned, never through a *Options received from the caller (GATEW); the error for several exclusive sources of a secret / config does not depend on `driver` / `external` (SRCEXCL); every field of loader.Options is copied, from the field of the same name, by (*Options).clone, so a nested load (include, extends) runs under the switches the caller set (CLONE); validation.checks rows denote schema paths and are exclusive (A1, A2). Every attribute a validation check tests as a boolean or number has an interpolation cast row at its path, so the check sees the typed value also when it was written as a variable (CHKCAST). An error of checkConsistency that is only reported when an optional section is present has a condition that reads inside that section (INV-guard): a nil guard in front of a rule that does not need it switches the rule off for models without the section.",
 		NotDecided: "that each condition is the right condition (an inverted comparison survives); acceptance implies consistency for fragments arriving through override / extends / include.",
-		Rules:      []string{"INV", "CYC", "PIPE", "GATEW", "A1", "A2", "CLONE", "TREE", "EXTVAL", "SRCEXCL", "CHKCAST"},
+		Rules:      []string{"INV", "CYC", "PIPE", "GATEW", "A1", "A2", "CLONE", "TREE", "EXTVAL", "SRCEXCL", "CHKCAST", "INV-guard"},
 		Run: func(c *rules.Ctx) []report.Obligation {
 			return cat(c.CHKCAST("CHKCAST"), c.SRCEXCL("SRCEXCL"), c.EXTVAL("EXTVAL"), c.TREE("TREE", "LOAD"), c.CLONE("CLONE"), c.INV("INV"), rules.Only(c.CYC("CYC"), "depends_on ::"), c.PIPE("PIPE", stageIn("loader.checkConsistency", "validation.Validate")), c.GATEW("GATEW"),
 				c.A1("A1", rules.TChecks), c.A2("A2", rules.TChecks))
 		},
 	})
 	def("C11", &propertyDef{
-		Decides:    "in everything reachable from SetDefaultValues, Canonical and Normalize every update of a map the function did not create is guarded by an absence test, an alias test, derives from the previous value, or is the current entry of a range (DFLT); SetDefaultValues and Normalize are gated by their flags and propagate errors (PIPE); the defaultValues rows denote schema paths (A2); defaults filled in for several entries are separate objects: no loop stores one loop-invariant map under several keys, so refining one entry later cannot change its siblings (TREE); a resource keeps its bare key as name on the strength of the value of `external`, not of the presence of the key (EXTVAL); whether a service uses the `default` network is decided by the presence of the key, never by a nil test of its value (NETPRES); every field of loader.Options is copied, from the field of the same name, by (*Options).clone, so a nested load (include, extends) runs under the switches the caller set (CLONE). The unicity key of a list item uses, for an attribute the defaults handler of the same list fills in, the same constant when the attribute is absent: implicit and explicit spellings of one entry collapse to one (KEYDFLT).",
+		Decides:    "in everything reachable from SetDefaultValues, Canonical and Normalize every update of a map the function did not create is guarded by an absence test, an alias test, derives from the previous value, or is the current entry of a range (DFLT); SetDefaultValues and Normalize are gated by their flags and propagate errors (PIPE); the defaultValues rows denote schema paths (A2); defaults filled in for several entries are separate objects: no loop stores one loop-invariant map under several keys, so refining one entry later cannot change its siblings (TREE); a resource keeps its bare key as name on the strength of the value of `external`, not of the presence of the key (EXTVAL); whether a service uses the `default` network is decided by the presence of the key, never by a nil test of its value (NETPRES); every field of loader.Options is copied, from the field of the same name, by (*Options).clone, so a nested load (include, extends) runs under the switches the caller set (CLONE). The unicity key of a list item uses, for an attribute the defaults handler of the same list fills in, the same constant when the attribute is absent: implicit and explicit spellings of one entry collapse to one (KEYDFLT). Paths handed to the defaults table are built with Path.Next, which escapes the separator, so a service whose name contains `.` still matches the patterns (TREEPATH).",
 		NotDecided: "that the default values are the specification's (\"tcp\", \"ingress\", <project>_<key>); that `default` is added iff some service uses it.",
-		Rules:      []string{"DFLT", "PIPE", "A2", "TREE", "CLONE", "EXTVAL", "NETPRES", "KEYDFLT"},
+		Rules:      []string{"DFLT", "PIPE", "A2", "TREE", "CLONE", "EXTVAL", "NETPRES", "KEYDFLT", "TREEPATH"},
 		Run: func(c *rules.Ctx) []report.Obligation {
-			return cat(c.KEYDFLT("KEYDFLT"), c.NETPRES("NETPRES"), c.EXTVAL("EXTVAL"), c.CLONE("CLONE"), c.DFLT("DFLT", []string{"transform.SetDefaultValues", "transform.Canonical", "loader.Normalize"}, []string{"loader.load"}),
+			return cat(c.TREEPATH("TREEPATH"), c.KEYDFLT("KEYDFLT"), c.NETPRES("NETPRES"), c.EXTVAL("EXTVAL"), c.CLONE("CLONE"), c.DFLT("DFLT", []string{"transform.SetDefaultValues", "transform.Canonical", "loader.Normalize"}, []string{"loader.load"}),
 				c.PIPE("PIPE", stageIn("transform.SetDefaultValues", "loader.Normalize")), c.A2("A2", rules.TDefaults), c.TREE("TREE", "LOAD"))
 		},
 	})
 	def("C12", &propertyDef{
-		Decides:    "each path-bearing attribute named by the statement matches exactly one resolver row and no resolver sits on another attribute (A9); resolver patterns are exclusive and denote schema paths (A1, A2); each origin resolves against its own base: main files against config.WorkingDir gated by ResolvePaths, included projects against loader.Dir / project_directory (ORIGIN), extended files against loader.Dir(refPath) with the nested load not resolving (EXT-5); the base of an `extends` is a deep copy, so the in-place rewriting of a path-bearing mapping is applied once per service and never to an object two services share (EXT-1); a build context containing `://` is returned unchanged on the strength of a plain substring test (URLCTX); no branch of the resolver methods is decided by the base directory, so whether a path is rewritten depends on the path alone (PATHPURE); the home directory replaces exactly the leading `~` (TILDE); the resolvers bound to mount sources and secret / config files consult the Windows-absolute test (A9-win).",
+		Decides:    "each path-bearing attribute named by the statement matches exactly one resolver row and no resolver sits on another attribute (A9); resolver patterns are exclusive and denote schema paths (A1, A2); each origin resolves against its own base: main files against config.WorkingDir gated by ResolvePaths, included projects against loader.Dir / project_directory (ORIGIN), extended files against loader.Dir(refPath) with the nested load not resolving (EXT-5); the base of an `extends` is a deep copy, so the in-place rewriting of a path-bearing mapping is applied once per service and never to an object two services share (EXT-1); a build context containing `://` is returned unchanged on the strength of a plain substring test (URLCTX); no branch of the resolver methods is decided by the base directory, so whether a path is rewritten depends on the path alone (PATHPURE); the home directory replaces exactly the leading `~` (TILDE); the resolvers bound to mount sources and secret / config files consult the Windows-absolute test (A9-win). No resolver of package paths decides by searching a value for a keyword as a substring (KEYWORD).",
 		NotDecided: "absolute / known-remote-prefix / Windows detection, `~` expansion, idempotence: value-level string predicates.",
-		Rules:      []string{"A9", "A1", "A2", "ORIGIN", "EXT-5", "EXT-1", "PIPE", "TREEPATH", "URLCTX", "PATHPURE", "TILDE"},
+		Rules:      []string{"A9", "A1", "A2", "ORIGIN", "EXT-5", "EXT-1", "PIPE", "TREEPATH", "URLCTX", "PATHPURE", "TILDE", "KEYWORD"},
 		Run: func(c *rules.Ctx) []report.Obligation {
-			return cat(c.TILDE("TILDE"), c.PATHPURE("PATHPURE"), c.A9("A9"), c.TREEPATH("TREEPATH"), c.URLCTX("URLCTX"), c.A1("A1", rules.TResolvers), c.A2("A2", rules.TResolvers), c.ORIGIN("ORIGIN"), rules.OnlyRule(c.EXT("EXT"), "EXT-5", "EXT-1"),
+			return cat(c.KEYWORD("KEYWORD"), c.TILDE("TILDE"), c.PATHPURE("PATHPURE"), c.A9("A9"), c.TREEPATH("TREEPATH"), c.URLCTX("URLCTX"), c.A1("A1", rules.TResolvers), c.A2("A2", rules.TResolvers), c.ORIGIN("ORIGIN"), rules.OnlyRule(c.EXT("EXT"), "EXT-5", "EXT-1"),
 				c.PIPE("PIPE", stageIn("paths.ResolveRelativePaths")))
 		},
 	})
 	def("C13", &propertyDef{
-		Decides:    "the spawn in visit is gated by ready then enter; in the spawned closure the visitor precedes done, done precedes the hand-off send, and every exit sends (TRV-1/2); ready returns true only after the loop over all dependencies and the direction tables are mirror images (TRV-4); vertexVisited is stored only in done, enter is a test-and-set (TRV-5); status and results are accessed only under the mutex, in the constructor or after the join (R3); walk returns eg.Wait() after any spawn, channel capacity is len-derived with one send per closure (FAN); the cycle error returns before walk (TRV-7) and the cycle search compares every child with the current path before anything can prune it, recursing only when it is not on the path (CYC); the errgroup limit is maxConcurrency + the coordinator (TRV-10); the coordinator's counter starts at the number of vertices, drops by one per received vertex and stops the coordinator at zero (TRV-8); a skipped vertex is decided from state that the walk does not change (TRV-11); every mutex or semaphore slot taken is given back on every path to an exit (PAIR); fields of graph/vertex/Options are not written in the concurrent phase (RONLY); the traversal does not write through the *Project argument (IMM-I1).",
+		Decides:    "the spawn in visit is gated by ready then enter; in the spawned closure the visitor precedes done, done precedes the hand-off send, and every exit sends (TRV-1/2); ready returns true only after the loop over all dependencies and the direction tables are mirror images (TRV-4); vertexVisited is stored only in done, enter is a test-and-set (TRV-5); status and results are accessed only under the mutex, in the constructor or after the join (R3); walk returns eg.Wait() after any spawn, channel capacity is len-derived with one send per closure (FAN); the cycle error returns before walk (TRV-7) and the cycle search compares every child with the current path before anything can prune it, recursing only when it is not on the path (CYC); the errgroup limit is maxConcurrency + the coordinator (TRV-10); the coordinator's counter starts at the number of vertices, drops by one per received vertex and stops the coordinator at zero (TRV-8); a skipped vertex is decided from state that the walk does not change (TRV-11); every mutex or semaphore slot taken is given back on every path to an exit (PAIR); fields of graph/vertex/Options are not written in the concurrent phase (RONLY); the traversal does not write through the *Project argument (IMM-I1). A limit set on an errgroup has one extra slot per closure that only waits for the others, and that closure is started on every path that reaches Wait (FAN-LIMIT).",
 		NotDecided: "liveness under every completion order, exactly-once, the interleaving space itself: the domain of model checking / schedule exploration.",
-		Rules:      []string{"TRV", "R3", "FAN", "RONLY", "IMM", "PAIR", "CYC"},
+		Rules:      []string{"TRV", "R3", "FAN", "RONLY", "IMM", "PAIR", "CYC", "FAN-LIMIT"},
 		Run: func(c *rules.Ctx) []report.Obligation {
-			return cat(rules.Only(c.CYC("CYC"), "depends_on ::"), c.TRV("TRV"), c.R3("R3", "graph"), c.FanOut("FAN", "graph"),
+			return cat(c.FanLimit("FAN-LIMIT"), rules.Only(c.CYC("CYC"), "depends_on ::"), c.TRV("TRV"), c.R3("R3", "graph"), c.FanOut("FAN", "graph"),
 				c.ROnly("RONLY", "graph", []string{"graph.walk"}, map[string]bool{"traversal.status": true, "traversal.results": true}), c.TRVSkip("TRV-11"), c.TRVCount("TRV-8"), c.PAIR("PAIR", "graph"), c.IMMGraph("IMM"))
 		},
 	})
@@ -186,20 +186,20 @@ func init() {
 		},
 	})
 	def("C16", &propertyDef{
-		Decides:    "OverrideBy writes unconditionally, Resolve only valueless keys (LAY-1); env/label files are applied in slice order onto a fresh accumulator and the service's own entries are the argument of the last OverrideBy, whose result is stored (LAY-2); the lookup handed to the env-file parser reads the accumulator then the project environment (LAY-3); file references are dropped only under the discard flag (LAY-4); loadEnvFile returns (nil,nil) only for a missing, not-required file (LAY-gate); a variable lookup counts as found on its boolean result alone (never on the value being non-empty) and lookup functions keep no memo (LOOKUP); a key is resolved from the environment only when it has no value at all (bare `KEY`, null), decided by nil / separator-absence / type tests and never by an emptiness test, so `KEY=` stays explicitly empty (INHERIT).",
+		Decides:    "OverrideBy writes unconditionally, Resolve only valueless keys (LAY-1); env/label files are applied in slice order onto a fresh accumulator and the service's own entries are the argument of the last OverrideBy, whose result is stored (LAY-2); the lookup handed to the env-file parser reads the accumulator then the project environment (LAY-3); file references are dropped only under the discard flag (LAY-4); loadEnvFile returns (nil,nil) only for a missing, not-required file (LAY-gate); a variable lookup counts as found on its boolean result alone (never on the value being non-empty) and lookup functions keep no memo (LOOKUP); a key is resolved from the environment only when it has no value at all (bare `KEY`, null), decided by nil / separator-absence / type tests and never by an emptiness test, so `KEY=` stays explicitly empty (INHERIT). The two resolution methods write nothing the receiver owns and return nothing that aliases it (IMM-I1 / I2): in particular the in-place Resolve of value-less keys runs on a copy, so a later resolution against another environment starts from the same value-less keys.",
 		NotDecided: "dotenv semantics, cross-references between layers, that discarding removes only the file references.",
-		Rules:      []string{"LAY", "LOOKUP", "INHERIT"},
+		Rules:      []string{"LAY", "LOOKUP", "INHERIT", "IMM-I1", "IMM-I2"},
 		Run: func(c *rules.Ctx) []report.Obligation {
-			return cat(c.INHERIT("INHERIT"), c.LAY("LAY"), c.RangeGuard("LAY-1", "types.(MappingWithEquals).OverrideBy", false), c.RangeGuard("LAY-1", "types.(MappingWithEquals).Resolve", true),
+			return cat(c.IMMResolve("IMM"), c.INHERIT("INHERIT"), c.LAY("LAY"), c.RangeGuard("LAY-1", "types.(MappingWithEquals).OverrideBy", false), c.RangeGuard("LAY-1", "types.(MappingWithEquals).Resolve", true),
 				c.LOOKUP("LOOKUP", "dotenv", "types", "loader", "cli"))
 		},
 	})
 	def("C17", &propertyDef{
-		Decides:    "name precedence in withNamePrecedenceLoad (explicit, COMPOSE_PROJECT_NAME, directory) with the right imperative flags (NAME-1); projectName validates an imperative name without consulting files, exports the name on every exit, interpolates (unless SkipInterpolation) and normalises the file name, uses it only when non-empty, last file wins (NAME-2); load rejects an empty name, WithName rejects non-normal names (NAME-3); NormalizeProjectName trims the leading `_` / `-` from the already filtered text (NAME-5); WithOsEnv and Mapping.Merge write only absent keys, WithEnv and later .env files overwrite, the .env lookup consults the current environment first (ENV). The KEY=VALUE entries of the explicit and OS layers are cut at their first `=` (Cut / SplitN 2), never split on every `=`, so a variable whose value contains `=` stays in its layer (KVSPLIT).",
+		Decides:    "name precedence in withNamePrecedenceLoad (explicit, COMPOSE_PROJECT_NAME, directory) with the right imperative flags (NAME-1); projectName validates an imperative name without consulting files, exports the name on every exit, interpolates (unless SkipInterpolation) and normalises the file name, uses it only when non-empty, last file wins (NAME-2); load rejects an empty name, WithName rejects non-normal names (NAME-3); NormalizeProjectName trims the leading `_` / `-` from the already filtered text (NAME-5); WithOsEnv and Mapping.Merge write only absent keys, WithEnv and later .env files overwrite, the .env lookup consults the current environment first (ENV). The KEY=VALUE entries of the explicit and OS layers are cut at their first `=` (Cut / SplitN 2), never split on every `=`, so a variable whose value contains `=` stays in its layer (KVSPLIT). Every configuration file is decoded when the name is looked for: no iteration over the files reaches the next one without the YAML decoder (REFS), so no textual pre-filter decides whether a file sets a name.",
 		NotDecided: "the regex itself, directory-name normalisation results, the option call order chosen by the caller.",
-		Rules:      []string{"NAME", "ENV", "KVSPLIT"},
+		Rules:      []string{"NAME", "ENV", "KVSPLIT", "REFS"},
 		Run: func(c *rules.Ctx) []report.Obligation {
-			return cat(c.KVSPLIT("KVSPLIT"), c.NAME("NAME"), c.RangeGuard("ENV", "cli.WithOsEnv", true), c.RangeGuard("ENV", "types.(Mapping).Merge", true),
+			return cat(rules.Containing(c.REFS("REFS", "loader"), "yaml.v3.NewDecoder"), c.KVSPLIT("KVSPLIT"), c.NAME("NAME"), c.RangeGuard("ENV", "cli.WithOsEnv", true), c.RangeGuard("ENV", "types.(Mapping).Merge", true),
 				c.RangeGuard("ENV", "cli.WithEnv$1", false), c.RangeGuard("ENV", "dotenv.GetEnvFromFile", false))
 		},
 	})
@@ -212,20 +212,20 @@ func init() {
 		},
 	})
 	def("C19", &propertyDef{
-		Decides:    "no package-level variable is written outside init (GLOB); for every function that spawns goroutines: state written by a spawned closure is not touched by the spawner between spawn and Wait nor by a sibling closure without a common mutex (R2), the owner returns Wait()'s error on every path after a spawn (R4), channels sent on from closures have len-derived capacity and one send per closure (R5); mutex-guarded fields are only accessed under the mutex, in constructors or after the join (R3); graph structures are read-only during the walk (RONLY); the structure of the dependency-ordered traversal (gating by ready then enter, visitor before done before hand-off, status values, counter, limit) as in C13 (TRV).",
+		Decides:    "no package-level variable is written outside init (GLOB); for every function that spawns goroutines: state written by a spawned closure is not touched by the spawner between spawn and Wait nor by a sibling closure without a common mutex (R2), the owner returns Wait()'s error on every path after a spawn (R4), channels sent on from closures have len-derived capacity and one send per closure (R5); mutex-guarded fields are only accessed under the mutex, in constructors or after the join (R3); graph structures are read-only during the walk (RONLY); the structure of the dependency-ordered traversal (gating by ready then enter, visitor before done before hand-off, status values, counter, limit) as in C13 (TRV). Wherever a limit is set on an errgroup on which a collector that only receives is started, the limit counts the collector (n + 1) and the collector is started before every Wait (FAN-LIMIT).",
 		NotDecided: "data-race freedom of dependencies (logrus, gojsonschema globals); that each load returns what it would return alone beyond the absence of shared writable state; channel happens-before is not modelled.",
-		Rules:      []string{"GLOB", "FAN", "R3", "RONLY", "PAIR", "INPUTS", "TRV"},
+		Rules:      []string{"GLOB", "FAN", "R3", "RONLY", "PAIR", "INPUTS", "TRV", "FAN-LIMIT"},
 		Run: func(c *rules.Ctx) []report.Obligation {
-			return cat(c.TRV("TRV"), c.GLOB("GLOB"), c.FanOut("FAN"), c.R3("R3", "graph", "types"), c.PAIR("PAIR", "graph", "loader"), c.INPUTS("INPUTS"),
+			return cat(c.FanLimit("FAN-LIMIT"), c.TRV("TRV"), c.GLOB("GLOB"), c.FanOut("FAN"), c.R3("R3", "graph", "types"), c.PAIR("PAIR", "graph", "loader"), c.INPUTS("INPUTS"),
 				c.ROnly("RONLY", "graph", []string{"graph.walk"}, map[string]bool{"traversal.status": true, "traversal.results": true}))
 		},
 	})
 	def("C20", &propertyDef{
-		Decides:    "each of the four secret/config marshallers blanks Content on the edge where it must not be rendered and reads the rendered copy afterwards (SEC-1); they exist with value receivers (SEC-2); marshallContent is written in one function, under the explicit option, on a deep copy (SEC-3); the decoder hook moves the carrier key to Content and deletes it (SEC-4); the renderers keep no package-level state (no pooled buffer a returned rendering could alias) (GLOB); no decision of the pipeline is keyed on the last path segment alone, which at depth two is a user-chosen resource name (PATHLAST); the loops that resolve environment-sourced secrets and configs carry nothing from one resource to the next (ORD on loader.resolve*); environment values looked up for secrets/configs are stored only under the carrier key resp. `content` (SEC-5); the project renderers do not write through the project (IMM-I1). What the loader stores under a constant key and reads back by type assertion (the `#extensions` mapping that carries an environment secret) is stored with a type the reader asserts, so the hand-over cannot fail silently (SEC-6).",
+		Decides:    "each of the four secret/config marshallers blanks Content on the edge where it must not be rendered and reads the rendered copy afterwards (SEC-1); they exist with value receivers (SEC-2); marshallContent is written in one function, under the explicit option, on a deep copy (SEC-3); the decoder hook moves the carrier key to Content and deletes it (SEC-4); the renderers keep no package-level state (no pooled buffer a returned rendering could alias) (GLOB); no decision of the pipeline is keyed on the last path segment alone, which at depth two is a user-chosen resource name (PATHLAST); the loops that resolve environment-sourced secrets and configs carry nothing from one resource to the next (ORD on loader.resolve*); environment values looked up for secrets/configs are stored only under the carrier key resp. `content` (SEC-5); the project renderers do not write through the project (IMM-I1). What the loader stores under a constant key and reads back by type assertion (the `#extensions` mapping that carries an environment secret) is stored with a type the reader asserts, so the hand-over cannot fail silently (SEC-6). The loader never deletes the `environment` attribute of a resource, on which the blanking of its value by the renderers depends (SEC-7).",
 		NotDecided: "non-occurrence of the value in the bytes (a second struct field, a user extension literally named x-#value, a value present elsewhere in the model); exact reproduction with WithSecretContent.",
 		Rules:      []string{"SEC", "IMM-I1", "GLOB", "ORD", "PATHLAST"},
 		Run: func(c *rules.Ctx) []report.Obligation {
-			return cat(c.KEYTYPE("SEC-6"), c.PATHLAST("PATHLAST"), c.SEC("SEC"), c.IMMRender("IMM"), rules.Only(c.GLOB("GLOB"), "types.", "inventory"), rules.Only(c.ORD("ORD", "LOAD"), "loader.resolve"))
+			return cat(c.SECKEEP("SEC-7"), c.KEYTYPE("SEC-6"), c.PATHLAST("PATHLAST"), c.SEC("SEC"), c.IMMRender("IMM"), rules.Only(c.GLOB("GLOB"), "types.", "inventory"), rules.Only(c.ORD("ORD", "LOAD"), "loader.resolve"))
 		},
 	})
 }
